@@ -100,6 +100,14 @@ def build_coq(clean=False):
                 os.path.getmtime(os.path.join(COQ, "_CoqProject")) > os.path.getmtime(os.path.join(COQ, "Makefile")):
             run(["coq_makefile", "-f", "_CoqProject", "-o", "Makefile"], cwd=COQ)
         rc, out, err, dt = run(["timeout", "3000", "make", "-k", "-j16"], cwd=COQ, timeout=3100)
+        if rc != 0 and "Cannot find a physical path" in out + err:
+            # a stale dependency file (files added with old timestamps): recompute the dependencies once
+            for fn in (".Makefile.d",):
+                try:
+                    os.remove(os.path.join(COQ, fn))
+                except FileNotFoundError:
+                    pass
+            rc, out, err, dt = run(["timeout", "3000", "make", "-k", "-j16"], cwd=COQ, timeout=3100)
     logtxt = out + err
     failing = re.findall(r'File "\./([^"]+)", line (\d+)', logtxt) if rc != 0 else []
     log("coq make rc=%d in %.1fs" % (rc, dt))
